@@ -536,6 +536,11 @@ def phys_flow(rng):
     return rng.uniform(0.1, 2.0)
 
 
+def plant_flow(rng):
+    """A large plant: 100-1000 L/s (as a system flow on the 1-3 borehole candidates, or per borehole 100-400 L/s)."""
+    return rng.choice([320.0, round(rng.uniform(100.0, 1000.0), 1), float(rng.randrange(100, 1000, 50))])
+
+
 def rand_phys(rng):
     p = ghelib.random_physics(rng)
     name = rng.choice(FLUIDS)
@@ -755,6 +760,14 @@ class Checker:
             self.dev("B-vs-S:" + key, a[key], b[key])
             if not close(a[key], b[key], REL15):
                 self.finding(f"equiv:{where}:{cls}:{key}", f"{cls} {where}: {key} differs between BOREHOLE v and SYSTEM N·v on {n} boreholes: {a[key]!r} vs {b[key]!r}", replay)
+        thermal = [x[k] for x in (a, b) for k in ("rb", "max_eft", "min_eft") if k in x]
+        if thermal and not all(math.isfinite(t) for t in thermal):
+            # R_b* / temperatures are compared only where the code produces finite values (very large flows may leave the
+            # validity range of the thermal correlations); the flows above are compared in any case
+            ctx.count("equivalence pairs with non-finite R_b*/EFT (thermal comparison skipped)")
+            if [math.isfinite(a.get(k, 0.0)) for k in ("rb", "max_eft", "min_eft")] != [math.isfinite(b.get(k, 0.0)) for k in ("rb", "max_eft", "min_eft")]:
+                self.finding(f"equiv:{where}:{cls}:{pipe}:finite", f"{cls} {where} ({pipe}): finite thermal results under one specification only on {n} boreholes: {a} vs {b}", replay)
+            return
         if "rb" in a and "rb" in b:
             self.dev("B-vs-S:rb", a["rb"], b["rb"])
             if not close(a["rb"], b["rb"], REL9):
@@ -1080,6 +1093,23 @@ def run(ctx: core.Ctx):
             chains.setdefault(f"chain{ci}", []).append(f"p{len(pcases)}")
             add_pipeline(cls, rng.choice(ghelib.PIPE_KINDS[:3]), phys, ["nearsquare", 5.0, 21, idx], v_sys, "synthetic" if idx > 25 else "real", f"chain{ci}",
                          specs=[("S", v_sys)])
+    # a large plant's system flow on the small-field end of the near-square list (N = 1, 2, 4) and on 3 boreholes; and the
+    # equivalence BOREHOLE v / SYSTEM N·v at 100-400 L/s per borehole
+    for ci, cls in enumerate(SEARCH_CLASSES if gen_pipeline else []):
+        for rep_i in range(1 if quick else 6):
+            pipe = ghelib.PIPE_KINDS[(ci + rep_i + ctx.seed) % 4]
+            f_sys = plant_flow(rng)
+            phys = ghelib.default_physics() if rep_i % 2 == 0 else rand_phys(rng)
+            if pipe == "COAXIAL":
+                phys["borehole"] = (phys["borehole"][0], phys["borehole"][1], max(phys["borehole"][2], 0.14))
+            name = f"plant{ci}_{rep_i}"
+            for field in (["nearsquare", 5.0, 21, 0], ["nearsquare", 5.0, 21, 1], ["grid", 3, 5.0, 3], ["nearsquare", 5.0, 21, 2]):
+                chains.setdefault(name, []).append(f"p{len(pcases)}")
+                add_pipeline(cls, pipe, phys, field, f_sys, "real", name, specs=[("S", f_sys)])
+            nb = rng.choice([1, 2, 3])
+            v_big = round(rng.uniform(100.0, 400.0), 1)
+            add_pipeline(cls, ghelib.PIPE_KINDS[(ci + rep_i + ctx.seed + 1) % 4], phys if pipe != "COAXIAL" else ghelib.default_physics(), ["grid", 3, 5.0, nb], v_big, "real", "plant-equiv",
+                         specs=[("B", v_big), ("S", v_big * nb)])
     jobs += [("pipeline", c) for c in pcases]
 
     # ---- (2) BaseGHE / GHE constructors
@@ -1092,6 +1122,14 @@ def run(ctx: core.Ctx):
             phys["borehole"] = (phys["borehole"][0], phys["borehole"][1], max(phys["borehole"][2], 0.14))
         bcases.append({"id": f"b{j}", "phys": phys, "pipe": pipe, "n": n, "vsys": phys_flow(rng) * max(n, 1) * rng.choice([1.0, 1.0, 0.9]),
                        "klass": "GHE" if j % 3 == 0 else "BaseGHE"})
+    for j in range(16 if quick else 240):   # very large flows at the small-field end (bhe.m_flow_borehole must still be V/N·rho/1000)
+        phys = rand_phys(rng) if j % 2 else ghelib.default_physics()
+        pipe = ghelib.PIPE_KINDS[j % 4]
+        if pipe == "COAXIAL":
+            phys["borehole"] = (phys["borehole"][0], phys["borehole"][1], max(phys["borehole"][2], 0.14))
+        n = 1 + (j // 4) % 3
+        vsys = plant_flow(rng) if j % 3 else round(rng.uniform(100.0, 400.0), 1) * n
+        bcases.append({"id": f"b{len(bcases)}", "phys": phys, "pipe": pipe, "n": n, "vsys": vsys, "klass": "GHE" if j % 5 == 0 else "BaseGHE", "tag": "plant"})
     if only:
         bcases = [rp["case"]] if only == "BaseGHE.__init__" else []
     jobs += [("base", c) for c in bcases]
